@@ -123,11 +123,49 @@ def race_signature(prop, stderr):
     files = sorted(set(files))
     return '%s/race:%s' % (prop, '|'.join(files) or 'unknown')
 
+import threading
+
+class Agg:
+    """Running aggregate over run records (per-run dicts are not kept: thorough tiers have millions of runs)."""
+    def __init__(self):
+        self.lock = threading.Lock()
+        self.n = 0; self.steps = 0; self.sim_ns = 0; self.capped = 0; self.nviol = 0
+        self.stats = {}; self.keys = set(); self.nontriv = set(); self.scheds = set()
+        self.samples = []; self.guard_pool = []; self.viols = []; self.stage_runs = {}
+
+    def add(self, r, stage, guard_stride):
+        with self.lock:
+            self.n += 1
+            self.stage_runs[stage] = self.stage_runs.get(stage, 0) + 1
+            self.steps += r.get('steps', 0); self.sim_ns += r.get('sim_ns', 0)
+            if r.get('capped'):
+                self.capped += 1
+            for k, v in (r.get('stats') or {}).items():
+                self.stats[k] = self.stats.get(k, 0) + v
+            if r.get('key'):
+                self.keys.add(r['key'])
+                if r.get('nontrivial'):
+                    self.nontriv.add(r['key'])
+            if r.get('sched_hash'):
+                self.scheds.add(r['sched_hash'])
+            if r.get('sample') is not None and not r.get('viol') and len(self.samples) < 4:
+                self.samples.append({'run': r['run'], 'stage': stage, 'case': r['sample']})
+            if r.get('viol'):
+                self.nviol += 1
+                if len(self.viols) < 4000:
+                    r['_stage'] = stage
+                    self.viols.append(r)
+            elif not r.get('capped') and r['run'] % guard_stride == 0:
+                self.guard_pool.append({'run': r['run'], 'log_hash': r.get('log_hash'), 'stage': stage})
+
 class Batch:
-    def __init__(self, ctx, prop, tier, seed, params, binary, extra_env=None, label='main'):
+    def __init__(self, ctx, prop, tier, seed, params, binary, extra_env=None, label='main', agg=None, keep_all=False):
         self.ctx, self.prop, self.tier, self.seed, self.params = ctx, prop, tier, seed, params
         self.binary, self.extra_env, self.label = binary, extra_env or {}, label
-        self.results = []      # end records
+        self.results = []      # end records (only with keep_all)
+        self.agg = agg or Agg()
+        self.keep_all = keep_all
+        self.guard_stride = 50
         self.crashes = []      # (run, sig, stderr)
         self.infra = []
         self.wall = 0.0
@@ -153,7 +191,12 @@ class Batch:
             os.remove(path) if os.path.exists(path) else None
             ends = [r for r in recs if r.get('ev') == 'end']
             starts = [r for r in recs if r.get('ev') == 'start']
-            out.extend(ends)
+            for r in ends:
+                self.agg.add(r, self.label, self.guard_stride)
+            if self.keep_all:
+                out.extend(ends)
+            else:
+                out.extend({'run': r['run'], 'log_hash': r.get('log_hash'), 'viol': r.get('viol')} for r in ends if self.label.startswith('det'))
             done = set(r['run'] for r in ends)
             rst = [r for r in recs if r.get('ev') == 'restart']
             if rc == 0 and rst and not is_race(err):
@@ -167,7 +210,7 @@ class Batch:
             pend = [s['run'] for s in starts if s['run'] not in done]
             if is_race(err):
                 # the race detector reports at exit code 66 or inline; attribute to the runs of this chunk
-                self.crashes.append((pend[0] if pend else (ends[-1]['run'] if ends else cur), race_signature(self.prop, err), err))
+                self.crashes.append((pend[0] if pend else (max(done) if done else cur), race_signature(self.prop, err), err))
                 if rc == 0 or not pend:
                     break
                 cur = pend[0] + 1
@@ -185,8 +228,9 @@ class Batch:
 
     def run(self, runs, chunk=None, per_run_timeout=2.0, samples=3, first=0):
         t0 = time.time()
+        self.guard_stride = max(1, runs // 400)
         if chunk is None:
-            chunk = max(1, min(500, runs // (NCPU * 4) or 1))
+            chunk = max(1, min(2000, runs // (NCPU * 4) or 1))
         jobs = []
         i = first
         while i < first + runs:
@@ -338,13 +382,12 @@ def known_match(known, prop, sig):
 
 def determinism_guard(ctx, cfg, batch, binary, prop, tier, seed, params, extra_env):
     """Re-executes a sample of runs in other processes at another GOMAXPROCS; hashes must agree."""
-    ends = [r for r in batch.results if not r.get('capped')]
-    if not ends:
+    pool = [g for g in batch.agg.guard_pool if g['stage'] == batch.label]
+    if not pool:
         return 0, []
-    k = max(5, len(ends) // 50)
-    k = min(k, 400, len(ends))
-    step = max(1, len(ends) // k)
-    sample = sorted(ends, key=lambda r: r['run'])[::step][:k]
+    k = min(max(5, len(pool)), 400)
+    step = max(1, len(pool) // k)
+    sample = sorted(pool, key=lambda r: r['run'])[::step][:k]
     mism = []
     def redo(r, procs):
         b = Batch(ctx, prop, tier, seed, params, binary, dict(extra_env or {}, GOMAXPROCS=str(procs)), label='det%d' % r['run'])
@@ -354,8 +397,6 @@ def determinism_guard(ctx, cfg, batch, binary, prop, tier, seed, params, extra_e
         futs = [ex.submit(redo, r, [1, 4, 16][i % 3]) for i, r in enumerate(sample)]
         for f in futs:
             r, res, b = f.result()
-            if r.get('viol') and not res:
-                continue
             if not res:
                 if b.crashes:
                     continue
@@ -382,7 +423,7 @@ def check(prop, tier, replay_file=None):
 
 def _check(ctx, prop, tier, cfg, tcfg, seed, params, known, t_start):
     stages = cfg.get('stages') or [{'name': 'main', 'build': 'default'}]
-    all_results, viol_map, infra = [], {}, []
+    agg, viol_map, infra = Agg(), {}, []
     stage_info = []
     guard_n = 0
     guard_mism = []
@@ -396,16 +437,14 @@ def _check(ctx, prop, tier, cfg, tcfg, seed, params, known, t_start):
         binary = ctx['binaries'][st.get('build', 'default')]
         extra_env = dict(st.get('env', {}))
         extra_env.update(ctx.get('env', {}))
-        b = Batch(ctx, prop, tier, seed, stp, binary, extra_env, label=st['name'])
+        nv0 = agg.nviol
+        b = Batch(ctx, prop, tier, seed, stp, binary, extra_env, label=st['name'], agg=agg)
         b.run(runs, per_run_timeout=tcfg.get('per_run_timeout', 2.0), chunk=tcfg.get('chunk'))
-        log('[%s %s] stage %s: %d runs in %.1fs, %d violations, %d crashes' % (prop, tier, st['name'], len(b.results), b.wall,
-            sum(1 for r in b.results if r.get('viol')), len(b.crashes)))
+        nstage = agg.stage_runs.get(st['name'], 0)
+        log('[%s %s] stage %s: %d runs in %.1fs, %d violations, %d crashes' % (prop, tier, st['name'], nstage, b.wall, agg.nviol - nv0, len(b.crashes)))
         infra.extend(b.infra)
-        for r in b.results:
-            r['_stage'] = st['name']
-        all_results.extend(b.results)
         # violations reported by the world
-        for r in sorted(b.results, key=lambda r: r['run']):
+        for r in sorted([v for v in agg.viols if v.get('_stage') == st['name']], key=lambda r: r['run']):
             for v in (r.get('viols') or ([r['viol']] if r.get('viol') else [])):
                 viol_map.setdefault(v['sig'], []).append({'stage': st, 'params': stp, 'run': r['run'], 'msg': v['msg'], 'tape': r.get('tape'), 'binary': binary,
                                                           'env': extra_env, 'primary': r.get('viol', {}).get('sig') == v['sig'], 'lines': r.get('lines'), 'sample': r.get('sample')})
@@ -417,11 +456,11 @@ def _check(ctx, prop, tier, cfg, tcfg, seed, params, known, t_start):
             guard_n += n
             if mism:
                 guard_mism.append((st['name'], mism[:5]))
-        stage_info.append({'stage': st['name'], 'runs': len(b.results), 'wall_s': round(b.wall, 2)})
-    if not all_results:
+        stage_info.append({'stage': st['name'], 'runs': nstage, 'wall_s': round(b.wall, 2)})
+    if agg.n == 0 and not viol_map:
         log('no runs completed: ' + '; '.join(infra)[:3000])
         return 2
-    capped = sum(1 for r in all_results if r.get('capped'))
+    capped = agg.capped
     if infra:
         for m in infra[:10]:
             log('INFRA: ' + m)
@@ -483,7 +522,7 @@ def _check(ctx, prop, tier, cfg, tcfg, seed, params, known, t_start):
         print('  seed=%d run=%d tape %d -> %d choices (%d candidates tried), %d runs hit this signature' % (seed, o['run'], len(tape), len(mintape), tried, len(occ)))
         reported.append({'sig': sig, 'known': False, 'count': len(occ), 'replay': rp})
         exit_code = 1
-    write_evidence(prop, tier, cfg, tcfg, seed, all_results, stage_info, reported, guard_n, capped, time.time() - t_start, ctx)
+    write_evidence(prop, tier, cfg, tcfg, seed, agg, stage_info, reported, guard_n, capped, time.time() - t_start, ctx)
     if exit_code == 0 and (unconfirmed or guard_mism):
         for sig, n, run in unconfirmed:
             log('INFRA: %s seen in %d batch runs (e.g. run %d) but not when replayed alone in a fresh process' % (sig, n, run))
@@ -502,29 +541,12 @@ def tail_of_crash(err):
         return err[m.start():m.start() + 2500]
     return err[-1500:]
 
-def write_evidence(prop, tier, cfg, tcfg, seed, results, stage_info, reported, guard_n, capped, wall, ctx):
-    stats = {}
-    keys = set()
-    scheds = set()
-    nontriv_keys = set()
-    steps = 0
-    sim_ns = 0
-    samples = []
-    for r in results:
-        for k, v in (r.get('stats') or {}).items():
-            stats[k] = stats.get(k, 0) + v
-        if r.get('key'):
-            keys.add(r['key'])
-            if r.get('nontrivial'):
-                nontriv_keys.add(r['key'])
-        if r.get('sched_hash'):
-            scheds.add(r['sched_hash'])
-        steps += r.get('steps', 0)
-        sim_ns += r.get('sim_ns', 0)
-        if r.get('sample') is not None and len(samples) < 4 and not r.get('viol'):
-            samples.append({'run': r['run'], 'stage': r.get('_stage'), 'case': r['sample']})
+def write_evidence(prop, tier, cfg, tcfg, seed, agg, stage_info, reported, guard_n, capped, wall, ctx):
+    stats, keys, scheds, nontriv_keys = agg.stats, agg.keys, agg.scheds, agg.nontriv
+    steps, sim_ns, samples = agg.steps, agg.sim_ns, list(agg.samples)
+    results = range(agg.n)
     if not samples:
-        samples = [{'run': r['run'], 'case': r.get('sample')} for r in results[:1]]
+        samples = [{'run': v['run'], 'case': v.get('sample')} for v in agg.viols[:1]] or [{'note': 'no sample recorded'}]
     evals = int(stats.get('evaluations', 0)) or len(results)
     ev = {
         'property_id': prop, 'tier': tier, 'seed': seed, 'level': cfg['level'],
@@ -601,7 +623,7 @@ def selftest(worlds):
                 hashes = []
                 for procs in (1, 4, 16):
                     env = dict(st.get('env', {})); env.update(ctx.get('env', {})); env['GOMAXPROCS'] = str(procs)
-                    b = Batch(ctx, prop, 'quick', 777, params, binary, env, label='self%d' % procs).run(n, samples=0)
+                    b = Batch(ctx, prop, 'quick', 777, params, binary, env, label='self%d' % procs, keep_all=True).run(n, samples=0)
                     hashes.append({r['run']: r.get('log_hash') for r in b.results})
                 diff = [r for r in hashes[0] if not (hashes[0][r] == hashes[1].get(r) == hashes[2].get(r))]
                 print('selftest %s/%s: %d runs x 3 processes, %d mismatches' % (prop, st['name'], len(hashes[0]), len(diff)))
